@@ -100,6 +100,15 @@ macro_rules! flavour_impl {
                 Value::Array(out)
             }
 
+            fn alias_of(&self, n: &Node<K, N, E>) -> Option<usize> {
+                let p = n.key() as *const K;
+                self.nodes.iter().position(|m| m.key() as *const K == p)
+            }
+
+            fn node_obs(&self, n: &Node<K, N, E>) -> Value {
+                json!({"alias": self.alias_of(n), "key": *n.key(), "value": *n.value()})
+            }
+
             fn exists_now(&self, lst: &str, owner: K, other: K, val: E) -> bool {
                 let n = self.nodes.iter().find(|n| *n.key() == owner).unwrap();
                 sel!($kind, {
@@ -373,8 +382,31 @@ macro_rules! flavour_impl {
                     return v;
                 }
                 let a = st.as_array().unwrap();
-                match a[0].as_str().unwrap() {
-                    x => json!({"error": format!("unknown step {}", x)}),
+                let op = a[0].as_str().unwrap();
+                if op == "g_new" {
+                    self.graph = Some(Graph::new());
+                    return json!("ok");
+                }
+                if op == "g_insert" {
+                    let n = self.nodes[us(&a[1])].clone();
+                    return json!(self.graph.as_mut().unwrap().insert(n));
+                }
+                if op == "g_remove" {
+                    let r = self.graph.as_mut().unwrap().remove(&us(&a[1]));
+                    return match r { Some(n) => self.node_obs(&n), None => Value::Null };
+                }
+                let g = self.graph.as_ref().unwrap();
+                match op {
+                    "g_get" => match g.get(&us(&a[1])) { Some(n) => self.node_obs(&n), None => Value::Null },
+                    "g_index" => { let n = &g[us(&a[1])]; self.node_obs(n) }
+                    "g_contains" => json!(g.contains(&us(&a[1]))),
+                    "g_len" => json!(g.len()),
+                    "g_is_empty" => json!(g.is_empty()),
+                    "g_to_vec" => json!(g.to_vec().iter().map(|n| self.alias_of(n)).collect::<Vec<_>>()),
+                    "g_orphans" => json!(g.orphans().iter().map(|n| self.alias_of(n)).collect::<Vec<_>>()),
+                    "g_iter" => json!(g.iter().map(|(k, n)| json!([*k, self.alias_of(n)])).collect::<Vec<_>>()),
+                    "g_to_dot" => json!(g.to_dot()),
+                    _ => self.step_graph_flavour(op, a),
                 }
             }
         }
